@@ -240,6 +240,23 @@ def replay_file(chk: Check):
             print("MISMATCH", json.dumps(v["sig"]), str(v["replay"].get("tlc"))[:600])
         print("reproduced" if sub.violations else "not reproduced")
         return 1 if sub.violations else 0
+    if rp.get("kind") == "external-history":
+        from .. import external_replay as er, session_driver
+        session_driver.preload()
+        mism, info = er.replay_history(rp["history"], rp["seed"], rp["collide"])
+        mine = [m for m in mism if chk.pid in m["props"]]
+        print(json.dumps({"mismatches": mine, "info": info}, indent=1)[:4000])
+        print("reproduced" if mine else "not reproduced")
+        return 1 if mine else 0
+    if rp.get("kind") == "reeval-case":
+        from .. import reeval_replay
+        mism, info, text = reeval_replay.replay_one(rp["case"], rp["seed"])
+        print(text)
+        mine = [m for m in mism if chk.pid in m["props"]]
+        for m in mine:
+            print("MISMATCH", json.dumps(m)[:2000])
+        print("reproduced" if mine else "not reproduced")
+        return 1 if mine else 0
     if rp.get("kind") == "seqedit-case":
         from .. import seqedit_replay
         mism, info, text, new = seqedit_replay.replay_one(rp["case"], rp["seed"])
